@@ -160,6 +160,11 @@ def apply_context(F, M, ctx):
         F.update_variable_number(3)
         M.raise_to(3)
         return
+    if ctx == 'anon300':
+        # identifiers beyond 256 (CPython's cache of small integers) and with three digits
+        F.update_variable_number(300)
+        M.raise_to(300)
+        return
     if ctx == 'group+anon':
         F.new_combinations(3, 2, label='pre<{}>')
         M.add_group('combinations', [3, 2], 'pre<{}>')
@@ -175,7 +180,7 @@ def apply_context(F, M, ctx):
     raise KeyError(ctx)
 
 
-CONTEXTS = ('fresh', 'anon3', 'group+anon', 'var+block')
+CONTEXTS = ('fresh', 'anon3', 'group+anon', 'var+block', 'anon300')
 
 
 # --------------------------------------------------------------- oracles --
@@ -651,7 +656,7 @@ def cases_A(tier, seed):
             or (kind in BIP_KINDS and shape[0] + shape[1] >= 7)
         for cls in ('CNF', 'OPB'):
             for ci, ctx in enumerate(CONTEXTS):
-                if heavy and not (cls == 'CNF' and ctx in ('fresh', 'group+anon')) \
+                if heavy and not (cls == 'CNF' and ctx in ('fresh', 'group+anon', 'anon300')) \
                         and not (cls == 'OPB' and ctx == 'anon3'):
                     continue
                 labs = ('custom', 'default') if (ctx == 'fresh' and kind != 'variable') else ('custom',)
